@@ -91,6 +91,12 @@ func verifHarnessC14() {
 	verifAssert(err == nil, "C14.open-b")
 	ops := vOpsFromMask(verifParam("ops"))
 	for step := 0; step < K; step++ {
+		// iterators opened BEFORE the operation and read AFTER it must agree too (snapshot semantics are
+		// part of "every return value, every iteration order")
+		var ia, ib *Iterator
+		if verifParam("iterspan") == 1 {
+			ia, ib = a.NewIterator(IteratorOptions{}), b.NewIterator(IteratorOptions{})
+		}
 		switch ops[verifChoice("op", len(ops))] {
 		case vOpPut:
 			ki := verifChoice("ki", len(kp.keys))
@@ -126,6 +132,27 @@ func verifHarnessC14() {
 			b, err = Open(ob)
 			verifAssert(err == nil, "C14.reopen-b")
 			verifReach("restarted")
+		}
+		if ia != nil {
+			ia.Rewind()
+			ib.Rewind()
+			for ia.Valid() || ib.Valid() {
+				verifAssert(ia.Valid() == ib.Valid(), "C14.spanning-iter-length-differs")
+				if !ia.Valid() || !ib.Valid() {
+					break
+				}
+				verifAssert(len(ia.Key()) == len(ib.Key()), "C14.spanning-iter-keylen-differs")
+				verifAssert(verifBytesEq(ia.Key(), ib.Key()), "C14.spanning-iter-key-differs")
+				va, ea := ia.Value()
+				vb, eb := ib.Value()
+				verifAssert(ea == eb && len(va) == len(vb), "C14.spanning-iter-value-shape-differs")
+				verifAssert(verifBytesEq(va, vb), "C14.spanning-iter-value-differs")
+				ia.Next()
+				ib.Next()
+				verifReach("spanning-iterator")
+			}
+			ia.Close()
+			ib.Close()
 		}
 		vSameDump(a, b, kp, "C14")
 	}
